@@ -35,7 +35,7 @@ using UG = LabeledUndirectedGraph<L>;
 L lab(uint64_t stamp) { return LT<L>::make(stamp); }
 
 struct Counters {
-    uint64_t detours = 0, subOfSub = 0, rejectedInBetween = 0, remutated = 0, graphs = 0, iterSteps = 0, conversions = 0, ctorChecks = 0, copies = 0, subsets = 0, remapChecks = 0, labelReads = 0, filesWritten = 0, emptyGraphs = 0,
+    uint64_t assignments = 0, rejectedInPast = 0, dupSources = 0, detours = 0, subOfSub = 0, rejectedInBetween = 0, remutated = 0, graphs = 0, iterSteps = 0, conversions = 0, ctorChecks = 0, copies = 0, subsets = 0, remapChecks = 0, labelReads = 0, filesWritten = 0, emptyGraphs = 0,
              zeroVertex = 0;
     ObsCounters oc;
 } C;
@@ -71,6 +71,24 @@ template <class G> Built<G> build(const GraphSpec &s, unsigned variant, Rng &r, 
                 b.g.addEdge(i, j, lab(880000 + t));
                 if (LT<L>::labelled) b.g.setEdgeLabel(i, j, lab(890000 + t));
                 b.g.removeEdge(j == i || s.directed ? i : j, j == i || s.directed ? j : i);
+            }
+        }
+        // calls the library rejects belong to a past as well (that they are rejected is C07's verdict; what the graph is
+        // afterwards is whatever the accepted calls made it)
+        for (int t = 0; t < 3; ++t) {
+            VertexIndex ok = r.u(s.n), bad = s.n + r.u(2);
+            unsigned which = r.u(6);
+            try {
+                switch (which) {
+                case 0: b.g.addEdge(ok, bad, lab(870000 + t), true); break;
+                case 1: b.g.addEdge(bad, ok, lab(870000 + t), true); break;
+                case 2: b.g.addEdge(ok, bad, lab(870000 + t)); break;
+                case 3: b.g.removeEdge(ok, bad); break;
+                case 4: b.g.setEdgeLabel(bad, ok, lab(870000 + t)); break;
+                default: b.g.resize(r.u(s.n)); break;
+                }
+            } catch (std::exception &) {
+                ++C.rejectedInPast;
             }
         }
         VertexIndex v = r.u(s.n);
@@ -415,6 +433,27 @@ template <class G> void c09(Reporter &R, const std::string &cls, const GraphSpec
                 else if (eq3(c, b.g)) e = "copy: mutated copy still == source";
             }
             if (e.empty()) e = labelsMatch(b.g, b.stamp, s.directed, "copy-source");
+            if (e.empty()) {
+                // assignment onto graphs that already hold something else, from the source itself and from a temporary copy of it,
+                // and construction from a temporary: each must be the source's equal, observer by observer
+                G t1(3);
+                t1.addEdge(0, 1, lab(5));
+                t1.addEdge(2, 2, lab(6));
+                G t2(t1);
+                t1 = b.g;
+                t2 = G(b.g);
+                G scratch(b.g);
+                G t3(std::move(scratch));
+                ++C.assignments;
+                const G *all[] = {&t1, &t2, &t3};
+                const char *how[] = {"assigned over a graph with other edges", "assigned from a temporary over a graph with other edges", "constructed from a temporary"};
+                for (int k = 0; k < 3 && e.empty(); ++k) {
+                    if (!eq3(*all[k], b.g)) e = std::string("copy: graph ") + how[k] + " != source";
+                    if (e.empty()) e = checkEdgesOnly(*all[k], b.x, C.oc);
+                    if (e.empty()) e = labelsMatch(*all[k], b.stamp, s.directed, how[k]);
+                    if (!e.empty() && e.find("copy:") != 0) e = std::string("copy: graph ") + how[k] + ": " + e;
+                }
+            }
             if (!e.empty()) { R.violation(cls + "/copy/" + obs(e), e + " on " + s.str()); return; }
         }
     } catch (std::exception &ex) {
@@ -425,7 +464,32 @@ template <class G> void c09(Reporter &R, const std::string &cls, const GraphSpec
 // ---------------------------------------------------------------- C10
 template <class G> void c10(Reporter &R, const std::string &cls, const GraphSpec &s, unsigned variant, uint64_t idx) {
     Rng r = caseRng(R.args.seed, hashStr(cls + "c10"), idx);
-    auto b = build<G>(s, variant, r, 37);
+    bool dupSource = variant == 5;
+    auto b = build<G>(s, dupSource ? 2 : variant, r, 37);
+    if (dupSource) {
+        // a graph that carries forced duplicates is a graph too (C16): the induced subgraph connects exactly the pairs of S that
+        // the source connects. How many copies the subgraph keeps is not stated, so only the set of pairs and the labels are held
+        ++C.dupSources;
+        for (auto &e : b.order)
+            if (r.chance(1, 2))
+                for (unsigned c = 0, k = 1 + r.u(2); c < k; ++c) b.g.addEdge(e.first, e.second, lab(b.stamp[canon(s.directed, e.first, e.second)]), true);
+    }
+    auto sameSet = [&](const G &got, const Expect &want) -> std::string {
+        std::ostringstream o;
+        if (got.getSize() != want.n) {
+            o << "getSize: expected " << want.n << " got " << got.getSize();
+            return o.str();
+        }
+        for (VertexIndex i = 0; i < want.n; ++i)
+            for (VertexIndex j = 0; j < want.n; ++j) {
+                bool w = want.e.count(canon(want.directed, i, j)) != 0;
+                if (got.hasEdge(i, j) != w) {
+                    o << "hasEdge(" << i << "," << j << "): expected " << w;
+                    return o.str();
+                }
+            }
+        return "";
+    };
     ++C.graphs;
     unsigned n = s.n;
     // up to 7 vertices: ALL 2^n subsets; larger graphs: 30 seeded subsets of varied density (plus the empty and the full set)
@@ -470,7 +534,7 @@ template <class G> void c10(Reporter &R, const std::string &cls, const GraphSpec
         std::string where = " for S=" + vecStr(members) + " on " + s.str();
         try {
             G sub = alg::getSubgraph(b.g, S);
-            std::string e = checkEdgesOnly(sub, ind, C.oc);
+            std::string e = dupSource ? sameSet(sub, ind) : checkEdgesOnly(sub, ind, C.oc);
             if (e.empty()) e = labelsMatch(sub, indStamp, s.directed, "getSubgraph");
             if (!e.empty()) { R.violation(cls + "/getSubgraph/" + obs(e), e + where); return; }
             if (mask % 5 == 2 && n > 1) {
@@ -489,7 +553,7 @@ template <class G> void c10(Reporter &R, const std::string &cls, const GraphSpec
                     }
                 G sub2 = alg::getSubgraph(sub, S2);
                 ++C.subOfSub;
-                e = checkEdgesOnly(sub2, ind2, C.oc);
+                e = dupSource ? sameSet(sub2, ind2) : checkEdgesOnly(sub2, ind2, C.oc);
                 if (e.empty()) e = labelsMatch(sub2, ind2Stamp, s.directed, "getSubgraph-of-getSubgraph");
                 if (!e.empty()) { R.violation(cls + "/getSubgraph/of-a-subgraph/" + obs(e), e + where); return; }
             }
@@ -519,7 +583,7 @@ template <class G> void c10(Reporter &R, const std::string &cls, const GraphSpec
                 pulled.e[k] = Expect::Cell();
                 pulledStamp[k] = kv.second;
             }
-            e = checkEdgesOnly(rg, pulled, C.oc);
+            e = dupSource ? sameSet(rg, pulled) : checkEdgesOnly(rg, pulled, C.oc);
             if (e.empty()) e = labelsMatch(rg, pulledStamp, s.directed, "getSubgraphWithRemap");
             if (!e.empty()) { R.violation(cls + "/getSubgraphWithRemap/" + obs(e), e + where); return; }
         } catch (std::exception &ex) {
@@ -535,6 +599,9 @@ void flush(Reporter &R) {
     R.count("enumerate_mutate_enumerate_rounds", C.remutated);
     R.count("rejected_subgraph_calls_in_between", C.rejectedInBetween);
     R.count("graphs_with_a_past_of_removals_and_rebuilds", C.detours);
+    R.count("rejected_calls_in_the_past_of_a_graph", C.rejectedInPast);
+    R.count("assignments_over_a_non_empty_graph_and_from_temporaries", C.assignments);
+    R.count("source_graphs_carrying_forced_duplicates", C.dupSources);
     R.count("subgraph_of_subgraph_checks", C.subOfSub);
     R.count("edge_iteration_steps", C.iterSteps);
     R.count("conversions_checked", C.conversions);
